@@ -21,6 +21,7 @@ import (
 	"fmt"
 	"reflect"
 	"sort"
+	"strings"
 )
 
 // ColumnMeta
@@ -97,6 +98,20 @@ type TableMeta struct {
 
 func (m TableMeta) IsEmpty() bool {
 	return m.TableName == ""
+}
+
+// GetColumnMeta finds a column by name as MySQL does, without regard to case: a statement may spell a
+// column differently from the catalogue (id for ID, username for userName)
+func (m TableMeta) GetColumnMeta(name string) (ColumnMeta, bool) {
+	if columnMeta, ok := m.Columns[name]; ok {
+		return columnMeta, true
+	}
+	for catalogueName, columnMeta := range m.Columns {
+		if strings.EqualFold(catalogueName, name) {
+			return columnMeta, true
+		}
+	}
+	return ColumnMeta{}, false
 }
 
 func (m TableMeta) GetPrimaryKeyMap() map[string]ColumnMeta {
